@@ -78,6 +78,8 @@ PV = 'pyvc VC generator and its Python-semantics assumptions (DESIGN 3, 9); z3; 
 PROVED = {
  'C01': ('Simulation._initialize (symbolic number of wires, 3 loop invariants: register_value_map > reset_value > default_value) and Simulation.step (input validation; phase order with loop invariants over ghost state) are also under contract', None),
  'C05': ('P: translation validation for ALL widths of the per-net Verilog emitters - the assign statement printed by the real loop body of _to_verilog_combinational (executed from the real source on a model net with symbolic widths) is parsed back and read under the IEEE 1364-2001 expression width rules, and equals the documented value of the primitive (w ~ & | ^ + - * < > = x, concat of 1..3 pieces, select shapes) for every operand value, discharged by z3; then ', 'per-net emitters proved for all widths (P); '),
+ 'C15': ('P: contracts on Simulation.step (input validation: PyrtlError iff a value is outside [0, 2**bitwidth), a non-Input is driven or an Input is missing; the trace receives exactly the final value map), SimulationTrace.add_step / add_fast_step (any number of traced names, loop invariant over ghost length/content arrays: every list grows by exactly one entry = the value of its wire, earlier entries unchanged, PyrtlError iff nothing is traced), Simulation.inspect, and the lemma over those contracts inspect(n) == trace[n][-1] / len grows by one per step, discharged by z3; then ', 'Simulation observation channel proved (P); other simulators, printers, step_multiple, assertions bounded (B); '),
+ 'C17': ('P: contract on TimingAnalysis._generate_timing_map with a caller-supplied integer delay table over a symbolic well-formed netlist of any size: sources are timed 0 and every timed net satisfies T[dest] == max(T[arg]) + delay (the longest-path recurrence; loop invariant over ghost netlist functions, `max` of a generator over a symbolic argument list), discharged by z3; then ', 'timing-map recurrence proved for integer tables (P); float default table, critical paths, paths, fanout bounded (B); '),
  'C02': ('P: translation validation for ALL widths of the FastSimulation per-op expression templates (real simple_func templates evaluated from source, emitted text parsed back) with the real _no_mask_bitwidth mask-elision rule, discharged by z3; PB: translation validation of every emitted C op of CompiledSimulation at limb-crossing widths (elab/cemit); multi-limb multiply on limb-pattern stimuli; then ',
          'FastSimulation per-op emission proved for all widths/values (P); C emitters per width instance (PB); whole programs bounded (B)'),
  'C03': ('P: contracts on the real gate-level generators _one_bit_add, _add_helper (induction on operand length), _basic_add, _basic_sub, _basic_lt (induction), _basic_gt, _basic_eq, or_all_bits, tree_reduce (induction on the vector length; the higher-order precondition `op is OR on one-bit wires` is discharged at each call site by executing the passed lambda on two arbitrary one-bit wires) over the builder model (wire = (bitwidth, den); add_net = WF obligation + documented value), discharged by z3 for all widths and values; then ',
@@ -86,8 +88,8 @@ PROVED = {
          'folding rules and CSE argument-sorting proved (P); pass-level equivalence bounded per design (PB)'),
  'C06': ('P: (len, den) contracts on WireVector._two_var_op (10 ops x wire/int operand), __invert__, __getitem__ (Python index/slice semantics), _extend_with_bit, concat, select over the builder model, discharged by z3 for all widths and values; then ',
          'operator layer proved for all widths/values (P) except the documented a*b length (known finding); helpers / shifts / signed ops bounded per width (PB)'),
- 'C07': ('P: contract on conditional._finalize (select-chain fold for ANY number of branches; wires, registers with default self, `defaults`, memory write ports) with loop invariants + exclusion lemma by induction, discharged by z3; then ',
-         'fold of the branch lists proved for all branch counts (P); predicate construction and exclusion check bounded by tree enumeration (PB)'),
+ 'C07': ('P: contract on conditional._finalize taken from the property statement (for ANY number of branches, under the exclusion precondition, the target == rhs of its unique active branch, else its default; wires, registers with default self, `defaults`, memory write ports incl. enable 0 when no branch is active) with structure-independent loop invariants, discharged by z3; then ',
+         'unique-active-branch value proved for all branch counts (P); predicate construction and exclusion check bounded by tree enumeration (PB)'),
  'C08': ('the port builders MemBlock._build_read_port and MemBlock._assignment (one well-formed m / @ net per port: memid = id, geometry, zero-extension, enable default 1, refusals) and MemBlock._make_copy / RomBlock._make_copy are also under contract; ', None),
  'C09': ('P: contracts on every rewrite rule of nand_synth / and_inverter_synth (one-bit wires: new logic computes the documented value using only the target gates; kept ops return truthy), discharged by z3; then ',
          'per-op rewrite rules proved (P); pass-level equivalence and structural postconditions bounded per design (PB)'),
